@@ -86,3 +86,88 @@ Theorem always_same_refuted_lemma :
 Proof.
   exists 2, 3%nat, (fun _ => 1), 8, (fun u => u + 1), 0. split; [lia|]. vm_compute. discriminate.
 Qed.
+
+(* ---------- a wider kernel with neutral filling is a dilation ---------- *)
+Lemma zsum_app l1 l2 : zsum (l1 ++ l2) = zsum l1 + zsum l2.
+Proof. induction l1 as [|a l IH]; cbn [zsum fold_right app]; [reflexivity|]. fold (zsum (l ++ l2)). fold (zsum l). lia. Qed.
+
+Lemma zsum_map_zero (g : nat -> Z) l : (forall j, In j l -> g j = 0) -> zsum (map g l) = 0.
+Proof.
+  induction l as [|a l IH]; intros H; cbn [zsum fold_right map]; [reflexivity|].
+  fold (zsum (map g l)). rewrite IH by (intros j Hj; apply H; now right). rewrite (H a) by now left. reflexivity.
+Qed.
+
+Lemma taps_split n m w f q s :
+  taps (n + m) w f q s = taps n w f q s + zsum (map (fun j => w j * f (q + Z.of_nat j * s)) (seq n m)).
+Proof. unfold taps. rewrite seq_app, map_app, zsum_app. reflexivity. Qed.
+
+Lemma seq_last n r : (1 <= r)%nat -> seq n r = seq n (r - 1) ++ [(n + (r - 1))%nat].
+Proof.
+  intros Hr. assert (H : seq n ((r - 1) + 1) = seq n (r - 1) ++ [(n + (r - 1))%nat]) by (rewrite seq_app; reflexivity).
+  replace ((r - 1) + 1)%nat with r in H by lia. exact H.
+Qed.
+
+Theorem widened_taps_lemma (r k : nat) w zp f q s :
+  (1 <= r)%nat -> (1 <= k)%nat ->
+  taps (widened_len k r) (fun j => widened r w zp j - zp) f q s =
+  taps k (fun j => w j - zp) f q (Z.of_nat r * s).
+Proof.
+  intros Hr Hk. destruct k as [|k']; [lia|]. clear Hk.
+  induction k' as [|k' IH].
+  - unfold widened_len, taps. cbn [Nat.sub Nat.mul Nat.add seq map zsum fold_right].
+    unfold widened. rewrite Nat.mod_0_l by lia. cbn [Nat.eqb]. rewrite Nat.div_0_l by lia.
+    replace (q + Z.of_nat 0 * s) with (q + Z.of_nat 0 * (Z.of_nat r * s)) by (cbn; lia). reflexivity.
+  - replace (widened_len (S (S k')) r) with (widened_len (S k') r + r)%nat by (unfold widened_len; cbn [Nat.sub]; lia).
+    rewrite taps_split, IH.
+    assert (HR : forall W S', taps (S (S k')) W f q S' =
+                 taps (S k') W f q S' + zsum (map (fun j => W j * f (q + Z.of_nat j * S')) (seq (S k') 1))).
+    { intros W S'. replace (S (S k')) with (S k' + 1)%nat by lia. apply taps_split. }
+    rewrite HR. clear HR.
+    f_equal.
+    (* the r new positions: only the last one is a multiple of r *)
+    set (n := widened_len (S k') r).
+    assert (Hn : n = (k' * r + 1)%nat) by (unfold n, widened_len; cbn [Nat.sub]; lia).
+    rewrite (seq_last n r Hr), map_app, zsum_app.
+    rewrite zsum_map_zero.
+    + cbn [seq map zsum fold_right]. rewrite !Z.add_0_r, Z.add_0_l.
+      assert (Hlast : (n + (r - 1))%nat = ((S k') * r)%nat) by (rewrite Hn; cbn [Nat.mul]; lia).
+      rewrite Hlast. unfold widened.
+      rewrite Nat.mod_mul by lia. cbn [Nat.eqb]. rewrite Nat.div_mul by lia.
+      f_equal. f_equal. rewrite Nat2Z.inj_mul. ring.
+    + intros j Hj. apply in_seq in Hj. unfold widened.
+      assert (Hm : (j mod r)%nat = (j - k' * r)%nat).
+      { replace j with ((j - k' * r) + k' * r)%nat at 1 by lia. rewrite Nat.mod_add by lia. apply Nat.mod_small. lia. }
+      rewrite Hm. destruct (Nat.eqb_spec (j - k' * r) 0) as [He|_]; [lia|]. ring.
+Qed.
+
+(* the split of a dilation into the hardware's part and the kernel's part is exact *)
+Lemma dilation_split d : 0 < d -> hw_dilation d * kernel_spread d = d /\ (hw_dilation d = 1 \/ hw_dilation d = 2).
+Proof.
+  intros Hd. unfold kernel_spread, hw_dilation. destruct (Z.odd d) eqn:Ho.
+  - split; [rewrite Z.div_1_r; lia | now left].
+  - split; [|now right]. rewrite <- Z.negb_even in Ho. apply negb_false_iff in Ho. apply Z.even_spec in Ho.
+    destruct Ho as [m ->]. rewrite (Z.mul_comm 2 m), Z.div_mul by lia. lia.
+Qed.
+
+Example widened_list_example : widened_list 3 2 [5; 7; 9] 128 = [5; 128; 7; 128; 9].
+Proof. vm_compute. reflexivity. Qed.
+
+(* a row of the two-dimensional kernel: the widened row of the original kernel, or filling only *)
+Lemma widened2_rows kh kw rh rw w fill h' :
+  (h' < widened_len kh rh)%nat ->
+  nth h' (widened2 kh kw rh rw w fill) [] =
+  if (h' mod rh =? 0)%nat then widened_list kw rw (nth (h' / rh)%nat w []) fill
+  else map (fun _ => fill) (seq 0 (widened_len kw rw)).
+Proof.
+  intros Hh. unfold widened2.
+  rewrite (nth_indep _ [] (map (fun _ : nat => 0) [] ++ [])) by (rewrite map_length, seq_length; exact Hh).
+  cbn [map app].
+  set (F := fun h'0 : nat => map (fun w' : nat => if ((h'0 mod rh =? 0) && (w' mod rw =? 0))%nat
+                                   then nth (w' / rw)%nat (nth (h'0 / rh)%nat w []) 0 else fill) (seq 0 (widened_len kw rw))).
+  change [] with (F 0%nat) at 1 || idtac.
+  rewrite (nth_indep _ [] (F 0%nat)) by (rewrite map_length, seq_length; exact Hh).
+  rewrite (map_nth F (seq 0 (widened_len kh rh)) 0%nat h'), seq_nth by exact Hh. cbn [Nat.add]. unfold F.
+  destruct (h' mod rh =? 0)%nat; cbn [andb].
+  - unfold widened_list, widened. apply map_ext. intros a. reflexivity.
+  - apply map_ext. intros a. reflexivity.
+Qed.
